@@ -10,7 +10,10 @@ From Coq Require Import ZArith String.
 From PG Require Import Lib.Str Lib.Cmp Lib.Sort Lib.Regex Model.Selector Model.DirEntry Model.UMN.
 Local Open Scope N_scope.
 
-Inductive kind := KDir | KFile | KFifo | KSpecial.   (* S_ISDIR / S_ISREG / S_ISFIFO / anything else *)
+(* S_ISDIR / S_ISREG / S_ISFIFO / anything else; KUnreadable: a regular file according to stat, but the
+   handler that takes it gets an OSError when it builds the entry (HTMLFileTitleHandler opens the file
+   for its title, BuckGophermapHandler stats a *.gophermap file a second time) *)
+Inductive kind := KDir | KFile | KFifo | KSpecial | KUnreadable.
 
 Record world := mkWorld {
   w_selector : str;                  (* selector of the directory being listed *)
@@ -33,6 +36,7 @@ Definition child_entry (w : world) (n : str) : result child_info :=
   if negb (is_secure (child_sel w n)) then Raise FileNotFound
   else match w_stat w n with
        | Some KDir | Some KFile => Ok (w_info w n)
+       | Some KUnreadable => Raise IOErr          (* handler.getentry() *)
        | Some KFifo | Some KSpecial | None => Raise FileNotFound
        end.
 
@@ -48,8 +52,8 @@ Definition sort_names (l : list str) : list str := isort str_leb l.
 (* prep_entries.  `child` is getHandler + getentry + prep_entriesappend:
    Ok None = the entry is not appended.  The pinned loop stops at the first
    exception; the repaired one skips a child for which getHandler raised
-   FileNotFound (and nothing else). *)
-Fixpoint prep_entries {A} (skip : bool) (child : str -> result (option A)) (names : list str)
+   FileNotFound or building the entry raised OSError (and nothing else). *)
+Fixpoint prep_entries {A} (skip : exn -> bool) (child : str -> result (option A)) (names : list str)
   : result (list (str * A)) :=
   match names with
   | [] => Ok []
@@ -57,9 +61,17 @@ Fixpoint prep_entries {A} (skip : bool) (child : str -> result (option A)) (name
       match child n with
       | Ok (Some a) => bind (prep_entries skip child r) (fun l => Ok ((n, a) :: l))
       | Ok None => prep_entries skip child r
-      | Raise FileNotFound => if skip then prep_entries skip child r else Raise FileNotFound
-      | Raise e => Raise e
+      | Raise e => if skip e then prep_entries skip child r else Raise e
       end
+  end.
+
+(* which failures of a child the loop survives: FileNotFound from getHandler (D7),
+   OSError from getHandler / getentry (D26) *)
+Definition skip_of (fx : fixes) (e : exn) : bool :=
+  match e with
+  | FileNotFound => fx_skip_child fx
+  | IOErr => fx_skip_unreadable fx
+  | _ => false
   end.
 
 Definition enum_order (fx : fixes) (enum : list str) : list str :=
@@ -74,7 +86,7 @@ Definition dir_files (fx : fixes) (alts : list alt) (w : world) (enum : list str
 
 Definition dir_listing (fx : fixes) (alts : list alt) (w : world) (enum : list str)
   : result (list (str * entry)) :=
-  prep_entries (fx_skip_child fx) (dir_child w) (dir_files fx alts w enum).
+  prep_entries (skip_of fx) (dir_child w) (dir_files fx alts w enum).
 
 (* ---------- UMN.UMNDirHandler ---------- *)
 Definition is_dot (n : str) : bool := match n with c :: _ => c =? 46 | [] => false end.
@@ -143,7 +155,7 @@ Section UMNListing.
 
   Definition umn_listing_gen (enum : list str) : result (list oentry) :=
     bind (umn_scan (enum_order fx enum) [] []) (fun fl =>
-    bind (prep_entries (fx_skip_child fx) umn_child (sort_names (fst fl))) (fun fes =>
+    bind (prep_entries (skip_of fx) umn_child (sort_names (fst fl))) (fun fes =>
     bind (merge_link_files fx
             (prune fx (cap_dropped (sort_names (fst fl))) (dict_lookup (tag_origin fes)) (snd fl))
             (tag_origin fes)) (fun merged =>
